@@ -105,7 +105,7 @@ SPECS = {
     "C03": dict(modules=["Ovldverif.Props.C03"], streams=["fn", "fn_static"], oracle="C03"),
     "C04": dict(modules=["Ovldverif.Props.C04"], streams=["table_static", "table_rich", "fn", "dep_f"], oracle="C04"),
     "C05": dict(modules=["Ovldverif.Props.C05", "Ovldverif.Props.C16"], streams=["table_static", "table_rich", "fn", "fn_types", "graph"], oracle="C05"),
-    "C06": dict(modules=["Ovldverif.Props.C06"], streams=["table_static", "fn_static", "levels", "levels_rich"], oracle="C06"),
+    "C06": dict(modules=["Ovldverif.Props.C06", "Ovldverif.Props.C10"], streams=["table_static", "fn_static", "levels", "levels_rich", "dep_f", "dep_lit_f"], oracle="C06"),
     "C07": dict(modules=["Ovldverif.Props.C07", "Ovldverif.Props.C07Chain"], streams=["table_static", "fn_static", "levels", "graph"], oracle="C07"),
     "C20": dict(modules=["Ovldverif.Props.C20"], streams=["table_rich", "fn", "dep_f", "fn_types", "graph"], oracle="C20"),
     "C09": dict(modules=["Ovldverif.Props.C09", "Ovldverif.Props.C09Stmt"], streams=["rewrite", "rewrite_struct"], oracle="C09"),
@@ -130,6 +130,7 @@ STREAMS = {
     "dep_lit": ("check_dep", "worker_e", lambda seed, n: (seed + 31, n, "literals"), "E"),
     "dep_comb": ("check_dep", "worker_e", lambda seed, n: (seed + 33, n, "combos"), "E"),
     "dep_f": ("check_dep", "worker_f", lambda seed, n: (seed + 37, max(10, n // 2), None), "F"),
+    "dep_lit_f": ("check_dep", "worker_f", lambda seed, n: (seed + 39, max(10, n // 2), "literals"), "F"),
     "levels": ("corr_c", "worker", lambda seed, n: (seed + 41, n, True), "C"),
     "levels_rich": ("corr_c", "worker", lambda seed, n: (seed + 43, n, False), "C"),
     "rewrite": ("check_rewrite", "worker", lambda seed, n: (seed + 47, n, {}), "H"),
